@@ -28,14 +28,16 @@ PROP = {
 }
 
 TEXT = {
-    "text": "Correspondence and oracle level (the Lean theorem modules for C11 are added by the render-model owner): every case "
-            "is a `render` case line answered by the Lean model and by the real engine; the real engine's output is compared "
-            "byte for byte with an independent reference loop (harness/ref_prog.go): items of arrays, ranges (none when b < a), "
-            "maps ([key, value] pairs in sorted key order), MapSlice (pairs in order), keyed maps (sorted keys), nothing for nil "
-            "and non-iterables; reversed, then offset, then limit; the else clause exactly when nothing is selected; "
-            "forloop.index/index0/rindex/rindex0/length/first/last by formula; break and continue consumed by the innermost "
-            "loop; cycle round-robin per loop execution and group; tablerow td/tr decoration.",
-    "design_ref": "DESIGN.md 6 C11",
-    "note": NOTE + "Comparison operators (break at j) are answered `unmodelled` by the model until Compare.lean is linked.",
-    "technique": "model/implementation correspondence + independent reference oracle (exhaustive grid and random nestings)",
+    "text": ('Theorems: ranges (none when b < a, else a..b in order), arrays/maps/nil item lists, selection = reverse, then skip '
+              'offset, then take limit (select_spec), else clause exactly when nothing is selected, '
+              'forloop.index/index0/rindex/rindex0/length/first/last by formula for every iteration, break/continue consumed by '
+              'the innermost loop (iterate_consumes, iterate_break, iterate_next), cycle counters per loop execution and group '
+              '(cycleGet_set_same, cycleGet_fresh), tablerow row/cell decoration (tablerow_before/after). Tie: the `loops` stream '
+              '(exhaustive offset/limit/reversed/cols/break grid plus random nestings) answers every case by the model and the '
+              'real engine, and the real output is compared byte for byte with an independent reference loop '
+              '(harness/ref_prog.go).'),
+    "design_ref": 'DESIGN.md 6 C11',
+    "note": NOTE + (""),
+    "technique": ('Lean 4 proof (list lemmas for selection; induction over the iteration of the render model) + model/implementation '
+              'correspondence + independent reference oracle'),
 }
